@@ -96,6 +96,7 @@ var histShapes = []hshape{
 	{Name: "declared-output-feeds-a-glob", Tasks: []htask{{Name: "A", Lits: []string{"a.txt"}, NCmd: 1, Copies: [][2]string{{"a.txt", "g.txt"}}, Outs: []string{"g.txt"}}, {Name: "B", Lits: []string{"b.txt"}, Globs: []string{"g*.txt"}, Deps: []string{"A"}, NCmd: 1}}, Files: []string{"a.txt", "b.txt", "g.txt"}},
 	{Name: "generator-two-levels-up", Tasks: []htask{{Name: "A", Lits: []string{"a.txt"}, NCmd: 1, Copies: [][2]string{{"a.txt", "g.txt"}}}, {Name: "B", Lits: []string{"b.txt"}, Deps: []string{"A"}, NCmd: 1}, {Name: "C", Lits: []string{"b.txt"}, Globs: []string{"g*.txt"}, Deps: []string{"B"}, NCmd: 1}}, Files: []string{"a.txt", "b.txt", "g.txt"}},
 	{Name: "generator-behind-a-grouping-task", Tasks: []htask{{Name: "A", Lits: []string{"a.txt"}, NCmd: 1, Copies: [][2]string{{"a.txt", "g.txt"}}}, {Name: "B", Lits: []string{"b.txt"}, Deps: []string{"A"}, NCmd: 0}, {Name: "C", Lits: []string{"b.txt"}, Globs: []string{"g*.txt"}, Deps: []string{"B"}, NCmd: 1}}, Files: []string{"a.txt", "b.txt", "g.txt"}},
+	{Name: "dependency-with-glob-and-literal", Tasks: []htask{{Name: "A", Lits: []string{"a.txt"}, Globs: []string{"s*.txt"}, NCmd: 1}, {Name: "B", Lits: []string{"b.txt"}, Deps: []string{"A"}, NCmd: 1}}, Files: []string{"a.txt", "b.txt", "s.txt"}},
 	{Name: "generated-input", Tasks: []htask{{Name: "A", Lits: []string{"a.txt"}, NCmd: 1, Copies: [][2]string{{"a.txt", "g.txt"}}}, {Name: "B", Lits: []string{"g.txt"}, Deps: []string{"A"}, NCmd: 1}}, Files: []string{"a.txt", "g.txt"}},
 	{Name: "chain-of-three", Tasks: []htask{{Name: "A", Lits: []string{"a.txt"}, NCmd: 1}, {Name: "B", Lits: []string{"b.txt"}, Deps: []string{"A"}, NCmd: 1}, {Name: "C", Deps: []string{"B"}, NCmd: 1}}, Files: []string{"a.txt", "b.txt"}},
 }
